@@ -33,6 +33,12 @@ class StmtMixin:
             elif isinstance(val, T) and isinstance(val.sort, tuple) and val.sort[0] == "Tup" and len(val.sort) - 1 == len(tgt.elts):
                 for i, t in enumerate(tgt.elts):
                     self.assign(t, tup_get(val, i), st)
+            elif isinstance(val, T) and isinstance(val.sort, tuple) and val.sort[0] == "Seq" and not any(isinstance(t, ast.Starred) for t in tgt.elts):
+                # [a, b] = xs : exactly len(targets) elements, otherwise ValueError
+                if not self.branch(T(BOOL, f"(= (seq.len {val.s}) {len(tgt.elts)})"), st):
+                    raise RaiseEx("ValueError", None, getattr(tgt, "lineno", 0))
+                for i, t in enumerate(tgt.elts):
+                    self.assign(t, T(val.sort[1], f"(seq.nth {val.s} {i})"), st)
             else:
                 for t in tgt.elts:
                     self.assign(t, self.opaque("unpack"), st)
@@ -74,7 +80,12 @@ class StmtMixin:
                     return
             if isinstance(cur, T) and isinstance(cur.sort, tuple) and cur.sort[0] == "Seq" and isinstance(k, T) and k.sort == INT:
                 v = self.coerce(val, cur.sort[1], "subscript-store")
-                new = T(cur.sort, f"(seq.update {cur.s} {k.s} (seq.unit {v.s}))")
+                # xs[k] = v as an array-like update (z3 has no seq.update; index-quantified facts suit both solvers)
+                new = self.opaque("upd", cur.sort)
+                kk = f"(ite (>= {k.s} 0) {k.s} (+ (seq.len {cur.s}) {k.s}))"
+                st.pc.append(f"(= (seq.len {new.s}) (seq.len {cur.s}))")
+                st.pc.append(f"(= (seq.nth {new.s} {kk}) {v.s})")
+                st.pc.append(f"(forall ((|q_su| Int)) (! (=> (and (>= |q_su| 0) (< |q_su| (seq.len {cur.s})) (not (= |q_su| {kk}))) (= (seq.nth {new.s} |q_su|) (seq.nth {cur.s} |q_su|))) :pattern ((seq.nth {new.s} |q_su|))))")
                 if self.store_back(base, new, st):
                     return
             if isinstance(base, ast.Attribute) and base.attr in self.m.fields:
